@@ -3,8 +3,9 @@
   Property theorems only.  Model: PV/Model/ClientGuard.lean.
 -/
 import PV.Model.ClientGuard
+import PV.Model.CtEq
 namespace PV.Props.C17
-open PV PV.ClientGuard
+open PV PV.ClientGuard PV.CtEq
 
 /-- the lifecycle invariant: a credential is only ever pending after the initial key exchange; the initial
 key exchange is only ever marked done after the host-key signature verified; from that moment the outbound
@@ -234,6 +235,56 @@ theorem host_key_checked_unless_gss_kex_negotiated (system user : Known) (presen
     (system = none ∧ user = none ∧ pol = true) ∨
     (∃ ks, effectiveKnown system user = some ks ∧ findType ks presented.name = some presented) :=
   two_stores_send_only_if_known_or_accepted system user presented pol (by simpa [sshClientConnectGss] using h)
+
+/-! ## hashed known_hosts names -/
+
+private theorem or_eq_zero (x y : UInt8) : x ||| y = 0 ↔ x = 0 ∧ y = 0 := by
+  constructor
+  · intro h
+    have h1 : (x ||| y).toNat = 0 := by rw [h]; rfl
+    rw [UInt8.toNat_or] at h1
+    have := Nat.or_eq_zero_iff.mp h1
+    exact ⟨UInt8.toNat_inj.mp (by simpa using this.1), UInt8.toNat_inj.mp (by simpa using this.2)⟩
+  · rintro ⟨rfl, rfl⟩; rfl
+
+private theorem xor_eq_zero (x y : UInt8) : x ^^^ y = 0 ↔ x = y := by
+  constructor
+  · intro h
+    have := congrArg (· ^^^ y) h
+    simp [UInt8.xor_assoc] at this
+    exact this
+  · rintro rfl; simp
+
+private theorem orFold_zero (a b : Bytes) (acc : UInt8) (hl : a.length = b.length) :
+    orFold a b acc = 0 ↔ acc = 0 ∧ a = b := by
+  induction a generalizing b acc with
+  | nil => cases b with
+    | nil => simp [orFold]
+    | cons y ys => simp at hl
+  | cons x xs ih =>
+    cases b with
+    | nil => simp at hl
+    | cons y ys =>
+      simp only [List.length_cons, Nat.add_right_cancel_iff] at hl
+      simp only [orFold, ih ys _ hl, or_eq_zero, xor_eq_zero, List.cons.injEq]
+      constructor
+      · rintro ⟨⟨h1, h2⟩, h3⟩; exact ⟨h1, h2, h3⟩
+      · rintro ⟨h1, h2, h3⟩; exact ⟨⟨h1, h2⟩, h3⟩
+
+/-- **The hashed-name comparison is equality.** `constant_time_bytes_eq` answers true exactly for identical byte
+strings: differences at several positions can never cancel (OR-fold, not XOR/sum), and a length difference is a
+difference.  So a hashed known_hosts name matches a looked-up host only if the salted hashes are identical. -/
+theorem constant_time_eq_is_equality (a b : Bytes) : ctEq a b = true ↔ a = b := by
+  unfold ctEq
+  constructor
+  · intro h
+    simp only [Bool.and_eq_true, beq_iff_eq] at h
+    exact ((orFold_zero a b 0 h.1).mp h.2).2
+  · rintro rfl
+    simp only [Bool.and_eq_true, beq_iff_eq, true_and]
+    exact (orFold_zero a a 0 rfl).mpr ⟨rfl, rfl⟩
+
+example : ctEq [1, 2, 3] [3, 2, 1] = false ∧ ctEq [5, 6] [4, 7] = false ∧ ctEq [9, 9] [9, 9] = true := by decide
 
 /-! ## non-vacuity -/
 
